@@ -103,6 +103,19 @@ SelfPairOK(e) ==
     /\ {e.prels[i] : i \in 1..Len(e.prels)} = {e.want[i] : i \in 1..Len(e.want)} /\ Len(e.prels) = Len(e.want)
     /\ e.vals_ok
 
+\* payloads of the smaller types along the life of one schema object (a type without any relationship;
+\* a type that is read, removed, and added again with other fields): what the schema holds when the call
+\* is made decides, whatever was answered before
+PTypeOK(e) ==
+    LET expect == IF e.typeknown /\ ~e.unknownattr /\ ~e.unknownrel THEN "accept" ELSE "reject"
+        Set(q) == {q[i] : i \in 1..Len(q)}
+    IN /\ e.part = expect /\ e.out = expect
+       /\ e.part = "accept" =>
+             /\ e.pname = e.tname
+             /\ Set(e.pattrs) = Set(e.wantattrs) /\ Len(e.pattrs) = Len(e.wantattrs)
+             /\ Set(e.prels) = Set(e.wantrels) /\ Len(e.prels) = Len(e.wantrels)
+             /\ e.vals_ok
+
 \* the members of an accepted array of resource payloads: each keeps its own type, id and values
 ColPayloadOK(e) ==
     /\ e.out = "accept"                       \* every member is a valid payload of a type of the schema
